@@ -849,6 +849,19 @@ type 'a samp =
 | Unif of key list * (key -> 'a samp)
 | Sample of key list * nat * (key list -> 'a samp)
 
+(** val bind : 'a1 samp -> ('a1 -> 'a2 samp) -> 'a2 samp **)
+
+let rec bind m f =
+  match m with
+  | Ret a -> f a
+  | Fail e -> Fail e
+  | Expo (r, k) -> Expo (r, (fun d -> bind (k d) f))
+  | Flip (p, kt, kf) -> Flip (p, (bind kt f), (bind kf f))
+  | Casc (ps, k) -> Casc (ps, (fun i -> bind (k i) f))
+  | Choose (w, c, k) -> Choose (w, c, (fun x -> bind (k x) f))
+  | Unif (c, k) -> Unif (c, (fun x -> bind (k x) f))
+  | Sample (pop, n0, k) -> Sample (pop, n0, (fun l -> bind (k l) f))
+
 type call =
 | CExpo of q
 | CFlip of q
@@ -902,6 +915,12 @@ let rec choose_exec weighted0 cands ds tr =
 let rotate n0 l =
   app (skipn n0 l) (firstn n0 l)
 
+(** val unit_draw : q -> bool **)
+
+let unit_draw d =
+  (&&) (negb (qltb d { qnum = Z0; qden = XH }))
+    (qltb d { qnum = (Zpos XH); qden = XH })
+
 (** val exec : 'a1 samp -> q list -> call list -> 'a1 result * call list **)
 
 let rec exec m ds tr =
@@ -913,15 +932,24 @@ let rec exec m ds tr =
     then ((Err ZeroDivision), (rev ((CExpo r) :: tr)))
     else (match ds with
           | [] -> ((Err OutOfDraws), (rev tr))
-          | d :: ds' -> exec (k d) ds' ((CExpo r) :: tr))
+          | d :: ds' ->
+            if qltb d { qnum = Z0; qden = XH }
+            then ((Err OutOfDraws), (rev tr))
+            else exec (k d) ds' ((CExpo r) :: tr))
   | Flip (p, kt, kf) ->
     (match ds with
      | [] -> ((Err OutOfDraws), (rev tr))
-     | d :: ds' -> exec (if qltb d p then kt else kf) ds' ((CFlip p) :: tr))
+     | d :: ds' ->
+       if unit_draw d
+       then exec (if qltb d p then kt else kf) ds' ((CFlip p) :: tr)
+       else ((Err OutOfDraws), (rev tr)))
   | Casc (ps, k) ->
     (match ds with
      | [] -> ((Err OutOfDraws), (rev tr))
-     | d :: ds' -> exec (k (casc_index ps d O)) ds' ((CCasc ps) :: tr))
+     | d :: ds' ->
+       if unit_draw d
+       then exec (k (casc_index ps d O)) ds' ((CCasc ps) :: tr)
+       else ((Err OutOfDraws), (rev tr)))
   | Choose (w, c, k) ->
     let (p, ds') = choose_exec w c ds tr in
     let (r, tr') = p in
@@ -1454,21 +1482,34 @@ let is_empty l =
   | [] -> true
   | _ :: _ -> false
 
+(** val liftr : 'a1 result -> 'a1 samp **)
+
+let liftr = function
+| Ok a -> Ret a
+| Err e -> Fail e
+
+(** val event_st :
+    graph -> model_kind -> bool -> q -> q -> q -> gst -> gst samp **)
+
+let event_st g kind full t trec ttot s =
+  Flip ((qdiv trec ttot), (Choose (s.infs.weighted, (kl_cands s.infs),
+    (fun c ->
+    liftr
+      (rbind (keynode c) (fun u ->
+        match kind with
+        | SIR -> sir_recover g full t u s
+        | SIS -> sis_recover g full t u s))))), (Choose (s.links.weighted,
+    (kl_cands s.links), (fun c ->
+    liftr
+      (rbind (keypair c) (fun uv ->
+        transmit g kind full t (fst uv) (snd uv) s))))))
+
 (** val event :
     graph -> model_kind -> bool -> q -> q -> q -> gst -> (gst -> simout samp)
     -> simout samp **)
 
 let event g kind full t trec ttot s k =
-  Flip ((qdiv trec ttot), (Choose (s.infs.weighted, (kl_cands s.infs),
-    (fun c ->
-    lift (keynode c) (fun u ->
-      lift
-        (match kind with
-         | SIR -> sir_recover g full t u s
-         | SIS -> sis_recover g full t u s) k)))), (Choose (s.links.weighted,
-    (kl_cands s.links), (fun c ->
-    lift (keypair c) (fun uv ->
-      lift (transmit g kind full t (fst uv) (snd uv) s) k)))))
+  bind (event_st g kind full t trec ttot s) k
 
 (** val loop :
     graph -> model_kind -> q -> q -> q -> xtime -> bool -> nat -> q -> gst ->
